@@ -11,7 +11,7 @@ def run(tier, argv):
     chk = Check("C04", tier)
     plans = [("a", ["f2", "fs", "fd"], "all", "all"), ("b", ["fn3", "fvf", "fc", "fa", "fb", "fs2"], "few", "all")]
     if tier != "quick":
-        plans = [("a", ["f2", "fs", "fd", "fc", "fa"], "all", "all"), ("b", ["fn3", "fvf", "fv", "fr", "fsc", "fvs", "fs2", "fcg", "fe", "fve"], "few", "all"), ("c", ["sc", "sc2", "cTF"], "few", "all")]
+        plans = [("a", ["f2", "fs", "fd", "fc", "fa"], "all", "all"), ("b", ["fn3", "fvf", "fv", "fr", "fsc", "fvs", "fs2", "fcg", "fch", "fe", "fve"], "few", "all"), ("c", ["sc", "sc2", "cTF"], "few", "all")]
     for tag, progs, sims, ua in plans:
         cfg = gficheck.write_cfg(f"C04_{tier}_{tag}.cfg", progs, 2, ["simulate", "regenerate"], 0, ua, INV, sim_scripts=sims)
         info = gficheck.run_config(chk, cfg, {"regenerate"}, variant="eager", min_depth=2,
